@@ -8,9 +8,12 @@
      sreq  {rep, k, i, now, st}   a media-segment request of representation rep whose reference segment is
            n = k*N+i (video: the segment itself; audio: the audio segment that follows video segment n), issued at
            instant now (ms relative to availabilityStartTime, pair over loopMS); st = status
-     mpd   {st, baseurls}         the BaseURL elements of the MPD served under the scenario's traffic_ parameter
+     mpd   {st, periods, pids}    the MPD served under the scenario's traffic_ parameter at a request instant:
+           periods = <<BaseURL list of every Period>>
+     tnoreq {b, period, why}      the MPD offers no way to request through BaseURL b (no BaseURL / template in the Period)
      treq  {b, k, i, now, sec, rel, st, ms}   a media-segment request through BaseURL number b (0-based; the
-           driver takes the path prefix from the MPD), sec = epoch second of the request instant, rel = sec - ast,
+           driver builds the URL from the MPD fetched at that instant: BaseURL b of the Period containing the segment +
+           SegmentTemplate@media + Representation@id), sec = epoch second of the request instant, rel = sec - ast,
            ms = wall time the server took (minimum over up to 3 attempts when the first was slow)              *)
 EXTENDS TraceLib, FaultsOps
 VARIABLES l, h, anch, cnt
@@ -25,7 +28,7 @@ SC == [N |-> H.N, dur |-> H.dur, vod0 |-> H.vod0, TS |-> H.TS, loopMS |-> H.loop
 SlowMinMS == 1000
 HangMinMS == 5000
 Anchors == {"epoch", "ast"}
-Cnt0 == [hit |-> 0, miss |-> 0, either |-> 0, mpd |-> 0, u |-> 0, d |-> 0, s |-> 0, h |-> 0, hdr |-> 0]
+Cnt0 == [hit |-> 0, miss |-> 0, either |-> 0, mpd |-> 0, noreq |-> 0, u |-> 0, d |-> 0, s |-> 0, h |-> 0, hdr |-> 0]
 Inc(f) == cnt' = [cnt EXCEPT ![f] = @ + 1]
 
 Init == l = 1 /\ h = 1 /\ anch = Anchors /\ cnt = Cnt0 /\ MonitorInit
@@ -52,11 +55,25 @@ SReq == /\ e.ev = "sreq"
 
 \* ---------------------------------------------------------------- traffic
 Distinct(s) == \A a, b \in 1..Len(s) : a # b => s[a] # s[b]
+\* C14.baseurls: every Period of the served MPD (single- and multi-period) offers one BaseURL per traffic pattern; the
+\* lists of all Periods are equal (BaseURL number b serves pattern number b in every Period: the driver builds each
+\* request from the BaseURL of the Period that contains the requested segment).  The names of the BaseURLs are not fixed
+\* by the property text and are not demanded.
 Mpd == /\ e.ev = "mpd"
-       /\ Clause("C14.baseurls", e.st = 200 /\ Len(e.baseurls) = Len(H.traffic) /\ Distinct(e.baseurls),
-                 <<"status", e.st, "baseurls", e.baseurls, "patterns", Len(H.traffic)>>)
+       /\ Clause("C14.baseurls", /\ e.st = 200 /\ Len(e.periods) >= 1
+                                 /\ \A p \in 1..Len(e.periods) : /\ Len(e.periods[p]) = Len(H.traffic)
+                                                                 /\ Distinct(e.periods[p])
+                                                                 /\ e.periods[p] = e.periods[1],
+                 <<"status", e.st, "baseurls_per_period", e.periods, "period_ids", e.pids, "patterns", Len(H.traffic)>>)
        /\ Inc("mpd")
        /\ UNCHANGED <<h, anch>>
+
+\* C14.traffic.baseurl: a client that follows the MPD must be able to request the segment through the BaseURL of
+\* pattern b in the Period that contains it; the driver reports when the MPD gives it nothing to request.
+TNoReq == /\ e.ev = "tnoreq"
+          /\ Clause("C14.traffic.baseurl", FALSE, <<e.why, "period", e.period, "pattern", e.b>>)
+          /\ Inc("noreq")
+          /\ UNCHANGED <<h, anch>>
 
 TReq == /\ e.ev = "treq"
         /\ LET now    == [w |-> e.now[1], r |-> e.now[2] * H.TS]
@@ -76,7 +93,7 @@ TReq == /\ e.ev = "treq"
               /\ Inc(s0)
         /\ UNCHANGED h
 
-Step == l <= Len(Trace) /\ (Hdr \/ SReq \/ Mpd \/ TReq) /\ l' = l + 1
+Step == l <= Len(Trace) /\ (Hdr \/ SReq \/ Mpd \/ TNoReq \/ TReq) /\ l' = l + 1
 Done == l = Len(Trace) + 1 /\ PrintT("STATS" \o ToJson(cnt)) /\ Consumed(Len(Trace)) /\ UNCHANGED vars
 Spec == Init /\ [][Step \/ Done]_vars
 Accepted == NoBad
